@@ -52,6 +52,10 @@ def main():
             meta["confirmed"]["demo_tail_without_change"] = out2[-1500:]
     finally:
         sh(f"git -C /repo worktree remove --force {wt}")
+    if "--confirm-only" in sys.argv:
+        results = json.load(open(f"{mdir}/CHECKS.json")) if os.path.exists(f"{mdir}/CHECKS.json") else {}
+        file_it(meta, results, prop, mdir, name)
+        return
     # run the checks against the change
     sh("git -C /repo checkout -- .")
     rc, out = sh(f"git -C /repo apply {mdir}/patch.diff")
@@ -69,6 +73,9 @@ def main():
             print(p, rc, v[0][:200] if v else out.strip().splitlines()[-1][:200], flush=True)
     finally:
         sh("git -C /repo checkout -- .")
+    file_it(meta, results, prop, mdir, name)
+
+def file_it(meta, results, prop, mdir, name):
     meta["checks"] = results
     meta["caught_by"] = [p for p, r in results.items() if r["exit"] == 1]
     dst = f"/verif/seeded/{name}"
